@@ -1,3 +1,732 @@
-From Coq Require Import QArith List Arith Bool ZArith Lia.
+(* Proofs/Partition.v — relabelling keeps the partition; every consumer is a function of the relation
+   "i and j carry the same label" only (sums over the modules 1..K are turned into sums over nodes). *)
+From Coq Require Import QArith Qring Qfield Lia Lqa Arith List Bool ZArith.
 From BCT Require Import Base.Mat Base.SumQ Base.ListX Model.Partition.
-Lemma pstub : True. Proof. exact I. Qed.
+Import ListNotations.
+Open Scope Q_scope.
+
+(* ---------- rank / relabel ---------- *)
+Lemma In_to_list {T} n (f : vec T) i : (i < n)%nat -> In (f i) (to_list n f).
+Proof. intros Hi. unfold to_list. apply in_map. apply in_seq. lia. Qed.
+
+Lemma rank_lt l x y : (x < y)%Z -> In x l -> (rank l x < rank l y)%nat.
+Proof.
+  intros Hxy Hx. unfold rank.
+  set (A := nodup Z.eq_dec (filter (fun z => Z.ltb z x) l)).
+  set (B := nodup Z.eq_dec (filter (fun z => Z.ltb z y) l)).
+  assert (HA : NoDup (x :: A)).
+  { constructor; [|apply NoDup_nodup]. unfold A. rewrite nodup_In, filter_In. intros [_ H]. apply Z.ltb_lt in H. lia. }
+  assert (Hincl : incl (x :: A) B).
+  { intros z [<-|Hz]; unfold B; rewrite nodup_In, filter_In.
+    - split; [exact Hx|apply Z.ltb_lt; exact Hxy].
+    - unfold A in Hz. rewrite nodup_In, filter_In in Hz. destruct Hz as [Hz Hlt]. split; [exact Hz|].
+      apply Z.ltb_lt in Hlt. apply Z.ltb_lt. lia. }
+  pose proof (NoDup_incl_length HA Hincl) as H. cbn [length] in H. lia.
+Qed.
+
+Lemma rank_inj l x y : In x l -> In y l -> rank l x = rank l y -> x = y.
+Proof.
+  intros Hx Hy H. destruct (Z.lt_trichotomy x y) as [Hlt|[Heq|Hgt]]; [|exact Heq|].
+  - pose proof (rank_lt l x y Hlt Hx). lia.
+  - pose proof (rank_lt l y x Hgt Hy). lia.
+Qed.
+
+Lemma rank_le_length l x : (rank l x <= length l)%nat.
+Proof.
+  unfold rank. etransitivity; [apply NoDup_incl_length; [apply NoDup_nodup|]|].
+  - intros z Hz. apply nodup_In in Hz. exact Hz.
+  - clear. induction l as [|a l IH]; cbn [filter length]; [lia|]. destruct (Z.ltb a x); cbn [length]; lia.
+Qed.
+
+Lemma relabel_spec n ci i : (i < n)%nat -> relabel n ci i = S (rank (to_list n ci) (ci i)).
+Proof. intros Hi. unfold relabel. rewrite tabv_spec by exact Hi. reflexivity. Qed.
+
+(* the relabelled vector induces the same partition *)
+Theorem relabel_same n ci i j : (i < n)%nat -> (j < n)%nat -> (relabel n ci i = relabel n ci j <-> ci i = ci j).
+Proof.
+  intros Hi Hj. rewrite (relabel_spec n ci i Hi), (relabel_spec n ci j Hj). split.
+  - intros H. injection H as H. apply (rank_inj (to_list n ci)); [apply In_to_list; exact Hi|apply In_to_list; exact Hj|exact H].
+  - intros H. rewrite H. reflexivity.
+Qed.
+
+(* ... keeps the ORDER of the labels (so block order may permute under a non-monotone renaming) *)
+Theorem relabel_monotone n ci i j : (i < n)%nat -> (j < n)%nat -> (ci i < ci j)%Z -> (relabel n ci i < relabel n ci j)%nat.
+Proof.
+  intros Hi Hj H. rewrite (relabel_spec n ci i Hi), (relabel_spec n ci j Hj).
+  pose proof (rank_lt (to_list n ci) (ci i) (ci j) H (In_to_list n ci i Hi)). lia.
+Qed.
+
+Lemma vmax_ge n (c : vec nat) i : (i < n)%nat -> (c i <= vmax n c)%nat.
+Proof.
+  intros Hi. unfold vmax. pose proof (In_to_list n c i Hi) as Hin. revert Hin. generalize (to_list n c) as l.
+  induction l as [|a l IH]; cbn [In fold_right]; [contradiction|]. intros [->|H]; [lia|]. specialize (IH H). lia.
+Qed.
+
+(* labels in 1..K with K = the maximum *)
+Definition canon (n : nat) (c : vec nat) : Prop := forall i, (i < n)%nat -> (1 <= c i <= vmax n c)%nat.
+Lemma relabel_canon n ci : canon n (relabel n ci).
+Proof. intros i Hi. split; [rewrite relabel_spec by exact Hi; lia|apply vmax_ge; exact Hi]. Qed.
+Lemma relabel_le n ci i : (i < n)%nat -> (relabel n ci i <= n)%nat.
+Proof.
+  intros Hi. rewrite relabel_spec by exact Hi.
+  (* ci i itself is a label that is not smaller than ci i *)
+  unfold rank. set (l := to_list n ci).
+  assert (HA : NoDup (ci i :: nodup Z.eq_dec (filter (fun z => Z.ltb z (ci i)) l))).
+  { constructor; [|apply NoDup_nodup]. rewrite nodup_In, filter_In. intros [_ H]. apply Z.ltb_lt in H. lia. }
+  assert (Hincl : incl (ci i :: nodup Z.eq_dec (filter (fun z => Z.ltb z (ci i)) l)) (nodup Z.eq_dec l)).
+  { intros z [<-|Hz]; rewrite nodup_In; [apply In_to_list; exact Hi|].
+    rewrite nodup_In, filter_In in Hz. tauto. }
+  pose proof (NoDup_incl_length HA Hincl) as H. cbn [length] in H.
+  assert (length (nodup Z.eq_dec l) <= length l)%nat.
+  { apply NoDup_incl_length; [apply NoDup_nodup|]. intros z Hz. apply nodup_In in Hz. exact Hz. }
+  unfold l in *. rewrite to_list_length in *. lia.
+Qed.
+
+(* two label vectors describe the same partition of 0..n-1 *)
+Definition same_part {A B} (n : nat) (c : vec A) (c' : vec B) : Prop :=
+  forall i j, (i < n)%nat -> (j < n)%nat -> (c i = c j <-> c' i = c' j).
+
+Theorem relabel_injective_invariant n ci (g : Z -> Z) : (forall x y, g x = g y -> x = y) ->
+  same_part n (relabel n (fun i => g (ci i))) (relabel n ci) /\ same_part n (relabel n ci) ci.
+Proof.
+  intros Hg. split; intros i j Hi Hj.
+  - rewrite (relabel_same n _ i j Hi Hj), (relabel_same n ci i j Hi Hj). split; [apply Hg|intros ->; reflexivity].
+  - apply relabel_same; assumption.
+Qed.
+
+Lemma same_part_relabel n ci ci' : same_part n ci ci' -> same_part n (relabel n ci) (relabel n ci').
+Proof.
+  intros H i j Hi Hj. rewrite (relabel_same n ci i j Hi Hj), (relabel_same n ci' i j Hi Hj). apply H; assumption.
+Qed.
+
+Lemma same_part_eqb n (c c' : vec nat) : same_part n c c' ->
+  forall i j, (i < n)%nat -> (j < n)%nat -> Nat.eqb (c i) (c j) = Nat.eqb (c' i) (c' j).
+Proof.
+  intros H i j Hi Hj. destruct (Nat.eqb_spec (c i) (c j)) as [E|E], (Nat.eqb_spec (c' i) (c' j)) as [E'|E']; try reflexivity.
+  - exfalso. apply E'. apply (H i j Hi Hj). exact E.
+  - exfalso. apply E. apply (H i j Hi Hj). exact E'.
+Qed.
+
+(* ---------- sums over the modules 1..K collapse on the module of a node ---------- *)
+Lemma block_collapse K a (f : nat -> Q) : (1 <= a <= K)%nat -> sumM K (fun m => ind (Nat.eqb a m) * f m) == f a.
+Proof.
+  intros Ha. unfold sumM. destruct a as [|p]; [lia|].
+  rewrite (sumQ_ext _ (fun u => ind (Nat.eqb p u) * f (S u))).
+  - rewrite (sumQ_ind_collapse (fun u => f (S u)) K p) by lia. reflexivity.
+  - intros u _. cbn [Nat.eqb]. reflexivity.
+Qed.
+
+Lemma sumQ_mul f g n : sumQ f n * sumQ g n == sumQ (fun j => sumQ (fun l => f j * g l) n) n.
+Proof.
+  rewrite <- sumQ_scal_r. apply sumQ_ext. intros j _. rewrite <- sumQ_scal. reflexivity.
+Qed.
+
+Lemma sumM_fubini K n (f : nat -> nat -> Q) : sumM K (fun m => sumQ (fun j => f m j) n) == sumQ (fun j => sumM K (fun m => f m j)) n.
+Proof. unfold sumM. apply sumQ_fubini. Qed.
+
+Lemma sumM_ext K f g : (forall m, (1 <= m <= K)%nat -> f m == g m) -> sumM K f == sumM K g.
+Proof. intros H. unfold sumM. apply sumQ_ext. intros u Hu. apply H. lia. Qed.
+
+Lemma ind_eqb_sym a b : ind (Nat.eqb a b) = ind (Nat.eqb b a).
+Proof. rewrite Nat.eqb_sym. reflexivity. Qed.
+
+(* ---------- participation_coef ---------- *)
+(* partition-only normal form of the module sum: sum_m (sum_j W[i,j][c_j = m])^2 = sum_j sum_l W[i,j] W[i,l] [c_j = c_l] *)
+Definition kc2_nf (n : nat) (W : mat Q) (c : vec nat) (i : nat) : Q :=
+  sumQ (fun j => sumQ (fun l => W i j * W i l * ind (Nat.eqb (c j) (c l))) n) n.
+
+Lemma qnzb_false w : qnzb w = false -> w == 0.
+Proof. unfold qnzb. intros H. apply negb_false_iff in H. apply Qeq_bool_iff. exact H. Qed.
+
+Lemma kc2_normal_form n W c i : canon n c ->
+  sumM (vmax n c) (fun m => sumQ (fun j => W i j * ind (Nat.eqb (if qnzb (W i j) then c j else 0%nat) m)) n *
+                            sumQ (fun j => W i j * ind (Nat.eqb (if qnzb (W i j) then c j else 0%nat) m)) n)
+  == kc2_nf n W c i.
+Proof.
+  intros Hc. unfold kc2_nf.
+  rewrite (sumM_ext _ _ (fun m => sumQ (fun j => sumQ (fun l => W i j * W i l * (ind (Nat.eqb (c j) m) * ind (Nat.eqb (c l) m))) n) n)).
+  - rewrite sumM_fubini. apply sumQ_ext. intros j Hj. rewrite sumM_fubini. apply sumQ_ext. intros l Hl.
+    unfold sumM. rewrite sumQ_scal. fold (sumM (vmax n c) (fun m => ind (Nat.eqb (c j) m) * ind (Nat.eqb (c l) m))).
+    rewrite (block_collapse (vmax n c) (c j) (fun m => ind (Nat.eqb (c l) m)) (Hc j Hj)).
+    rewrite (ind_eqb_sym (c l) (c j)). reflexivity.
+  - intros m Hm.
+    assert (E : forall j, W i j * ind (Nat.eqb (if qnzb (W i j) then c j else 0%nat) m) == W i j * ind (Nat.eqb (c j) m)).
+    { intros j. destruct (qnzb (W i j)) eqn:Eq; [reflexivity|]. rewrite (qnzb_false _ Eq). ring. }
+    rewrite (sumQ_ext _ (fun j => W i j * ind (Nat.eqb (c j) m)) n (fun j _ => E j)).
+    rewrite sumQ_mul. apply sumQ_ext. intros j _. apply sumQ_ext. intros l _. ring.
+Qed.
+
+Lemma kc2_nf_same n W c c' i : same_part n c c' -> kc2_nf n W c i == kc2_nf n W c' i.
+Proof.
+  intros H. unfold kc2_nf. apply sumQ_ext. intros j Hj. apply sumQ_ext. intros l Hl.
+  rewrite (same_part_eqb n c c' H j l Hj Hl). reflexivity.
+Qed.
+
+Lemma pcoef_same n W c c' i : canon n c -> canon n c' -> same_part n c c' -> pcoef n W c i == pcoef n W c' i.
+Proof.
+  intros Hc Hc' H. unfold pcoef. cbv zeta.
+  destruct (Qeq_bool (sumQ (fun j => W i j) n) 0); [reflexivity|].
+  rewrite (kc2_normal_form n W c i Hc), (kc2_normal_form n W c' i Hc'), (kc2_nf_same n W c c' i H). reflexivity.
+Qed.
+
+Theorem participation_coef_partition_only n W ci ci' deg_in i : same_part n ci ci' ->
+  participation_coef n W ci deg_in i == participation_coef n W ci' deg_in i.
+Proof.
+  intros H. unfold participation_coef.
+  apply pcoef_same; [apply relabel_canon|apply relabel_canon|apply same_part_relabel; exact H].
+Qed.
+
+Theorem participation_coef_sign_partition_only n W ci ci' i : same_part n ci ci' ->
+  fst (participation_coef_sign n W ci) i == fst (participation_coef_sign n W ci') i /\
+  snd (participation_coef_sign n W ci) i == snd (participation_coef_sign n W ci') i.
+Proof.
+  intros H. unfold participation_coef_sign. cbn [fst snd].
+  split; apply pcoef_same; try apply relabel_canon; apply same_part_relabel; exact H.
+Qed.
+
+(* the textbook formula: P_i = 1 - sum_{j,l in the same module} W[i,j] W[i,l] / k_i^2 *)
+Theorem participation_coef_formula n W ci i : (i < n)%nat ->
+  participation_coef n W ci false i ==
+  (if Qeq_bool (sumQ (fun j => W i j) n) 0 then 0
+   else 1 - sumQ (fun j => sumQ (fun l => W i j * W i l * ind (Z.eqb (ci j) (ci l))) n) n
+            / (sumQ (fun j => W i j) n * sumQ (fun j => W i j) n)).
+Proof.
+  intros Hi. unfold participation_coef, pcoef. cbv zeta.
+  destruct (Qeq_bool (sumQ (fun j => W i j) n) 0); [reflexivity|].
+  rewrite (kc2_normal_form n W (relabel n ci) i (relabel_canon n ci)).
+  assert (E : kc2_nf n W (relabel n ci) i == sumQ (fun j => sumQ (fun l => W i j * W i l * ind (Z.eqb (ci j) (ci l))) n) n).
+  { unfold kc2_nf. apply sumQ_ext. intros j Hj. apply sumQ_ext. intros l Hl.
+    assert (Nat.eqb (relabel n ci j) (relabel n ci l) = Z.eqb (ci j) (ci l)) as ->; [|reflexivity].
+    pose proof (relabel_same n ci j l Hj Hl) as Hs.
+    destruct (Nat.eqb_spec (relabel n ci j) (relabel n ci l)) as [E|E], (Z.eqb_spec (ci j) (ci l)) as [E'|E']; try reflexivity;
+      exfalso; tauto. }
+  rewrite E. reflexivity.
+Qed.
+
+(* ---------- module_degree_zscore ---------- *)
+Definition mdz_val (n : nat) (W : mat Q) (c : vec nat) (m i : nat) : Q * Q :=
+  (mdz_koi n W c m i - mdz_mean n W c m, mdz_var n W c m).
+
+Lemma mdz_loop_spec n W c K i : (i < n)%nat ->
+  mdz_loop n W c K i = if (Nat.leb 1 (c i) && Nat.leb (c i) K)%bool then mdz_val n W c (c i) i else (0, 0).
+Proof.
+  intros Hi. unfold mdz_loop. induction K as [|K IH].
+  - cbn [seq fold_left]. destruct (Nat.leb 1 (c i)) eqn:E1; cbn [andb]; [|reflexivity].
+    destruct (Nat.leb (c i) 0) eqn:E2; [|reflexivity]. apply Nat.leb_le in E1, E2. lia.
+  - rewrite seq_S, fold_left_app. cbn [fold_left]. rewrite tabv_spec by exact Hi. rewrite IH. cbn [Nat.add].
+    destruct (Nat.eqb_spec (c i) (S K)) as [E|E].
+    + rewrite E. rewrite Nat.leb_refl, andb_true_r. cbn [Nat.leb]. reflexivity.
+    + destruct (Nat.leb 1 (c i)) eqn:E1; cbn [andb]; [|reflexivity].
+      destruct (Nat.leb (c i) K) eqn:E2, (Nat.leb (c i) (S K)) eqn:E3; try reflexivity;
+        apply Nat.leb_le in E1; try apply Nat.leb_le in E2; try apply Nat.leb_le in E3;
+        try apply Nat.leb_gt in E2; try apply Nat.leb_gt in E3; lia.
+Qed.
+
+Lemma mdz_loop_canon n W c i : canon n c -> (i < n)%nat -> mdz_loop n W c (vmax n c) i = mdz_val n W c (c i) i.
+Proof.
+  intros Hc Hi. rewrite mdz_loop_spec by exact Hi. destruct (Hc i Hi) as [H1 H2].
+  apply Nat.leb_le in H1, H2. rewrite H1, H2. reflexivity.
+Qed.
+
+Lemma mdz_koi_same n W c c' i l : same_part n c c' -> (i < n)%nat -> (l < n)%nat ->
+  mdz_koi n W c (c i) l == mdz_koi n W c' (c' i) l.
+Proof.
+  intros H Hi Hl. unfold mdz_koi. apply sumQ_ext. intros j Hj. rewrite (same_part_eqb n c c' H j i Hj Hi). reflexivity.
+Qed.
+Lemma mdz_cnt_same n c c' i : same_part n c c' -> (i < n)%nat -> mdz_cnt n c (c i) == mdz_cnt n c' (c' i).
+Proof.
+  intros H Hi. unfold mdz_cnt. apply sumQ_ext. intros j Hj. rewrite (same_part_eqb n c c' H j i Hj Hi). reflexivity.
+Qed.
+Lemma mdz_mean_same n W c c' i : same_part n c c' -> (i < n)%nat -> mdz_mean n W c (c i) == mdz_mean n W c' (c' i).
+Proof.
+  intros H Hi. unfold mdz_mean. rewrite (mdz_cnt_same n c c' i H Hi).
+  rewrite (sumQ_ext _ (fun l => ind (Nat.eqb (c' l) (c' i)) * mdz_koi n W c' (c' i) l)); [reflexivity|].
+  intros l Hl. rewrite (same_part_eqb n c c' H l i Hl Hi), (mdz_koi_same n W c c' i l H Hi Hl). reflexivity.
+Qed.
+Lemma mdz_var_same n W c c' i : same_part n c c' -> (i < n)%nat -> mdz_var n W c (c i) == mdz_var n W c' (c' i).
+Proof.
+  intros H Hi. unfold mdz_var. rewrite (mdz_cnt_same n c c' i H Hi).
+  rewrite (sumQ_ext _ (fun l => ind (Nat.eqb (c' l) (c' i)) *
+     ((mdz_koi n W c' (c' i) l - mdz_mean n W c' (c' i)) * (mdz_koi n W c' (c' i) l - mdz_mean n W c' (c' i))))); [reflexivity|].
+  intros l Hl. rewrite (same_part_eqb n c c' H l i Hl Hi), (mdz_koi_same n W c c' i l H Hi Hl), (mdz_mean_same n W c c' i H Hi).
+  reflexivity.
+Qed.
+
+Theorem module_degree_zscore_partition_only n W ci ci' flag i : same_part n ci ci' -> (i < n)%nat ->
+  fst (module_degree_zscore_parts n W ci flag i) == fst (module_degree_zscore_parts n W ci' flag i) /\
+  snd (module_degree_zscore_parts n W ci flag i) == snd (module_degree_zscore_parts n W ci' flag i).
+Proof.
+  intros H Hi. unfold module_degree_zscore_parts. cbv zeta.
+  rewrite (mdz_loop_canon n _ (relabel n ci) i (relabel_canon n ci) Hi).
+  rewrite (mdz_loop_canon n _ (relabel n ci') i (relabel_canon n ci') Hi).
+  pose proof (same_part_relabel n ci ci' H) as Hs. unfold mdz_val. cbn [fst snd]. split.
+  - rewrite (mdz_koi_same n _ _ _ i i Hs Hi Hi), (mdz_mean_same n _ _ _ i Hs Hi). reflexivity.
+  - apply mdz_var_same; assumption.
+Qed.
+
+(* Z = (Koi - mean) / sqrt(variance), NaN -> 0, for ANY square-root function that respects == *)
+Section ZScore.
+Variable sqrt : Q -> Q.
+Hypothesis sqrt_proper : forall a b, a == b -> sqrt a == sqrt b.
+Definition module_degree_zscore (n : nat) (W : mat Q) (ci : vec Z) (flag : nat) (i : nat) : Q :=
+  let p := module_degree_zscore_parts n W ci flag i in
+  if Qeq_bool (snd p) 0 then 0 else fst p / sqrt (snd p).
+Theorem module_degree_zscore_invariant n W ci ci' flag i : same_part n ci ci' -> (i < n)%nat ->
+  module_degree_zscore n W ci flag i == module_degree_zscore n W ci' flag i.
+Proof.
+  intros H Hi. unfold module_degree_zscore. cbv zeta.
+  destruct (module_degree_zscore_partition_only n W ci ci' flag i H Hi) as [H1 H2].
+  assert (Eb : Qeq_bool (snd (module_degree_zscore_parts n W ci flag i)) 0 =
+               Qeq_bool (snd (module_degree_zscore_parts n W ci' flag i)) 0).
+  { destruct (Qeq_bool (snd (module_degree_zscore_parts n W ci' flag i)) 0) eqn:E.
+    - apply Qeq_bool_iff. apply Qeq_bool_iff in E. rewrite H2. exact E.
+    - destruct (Qeq_bool (snd (module_degree_zscore_parts n W ci flag i)) 0) eqn:E'; [|reflexivity].
+      apply Qeq_bool_iff in E'. rewrite H2 in E'. apply Qeq_bool_iff in E'. congruence. }
+  rewrite Eb. destruct (Qeq_bool (snd (module_degree_zscore_parts n W ci' flag i)) 0); [reflexivity|].
+  rewrite H1, (sqrt_proper _ _ H2). reflexivity.
+Qed.
+End ZScore.
+
+(* ---------- modularity_und / modularity_dir for a given partition ---------- *)
+Lemma zsame_same n (ci ci' : vec Z) : same_part n ci ci' ->
+  forall i j, (i < n)%nat -> (j < n)%nat -> zsame ci i j = zsame ci' i j.
+Proof.
+  intros H i j Hi Hj. unfold zsame. f_equal. pose proof (H i j Hi Hj) as Hs.
+  destruct (Z.eqb_spec (ci i - ci j) 0) as [E|E], (Z.eqb_spec (ci' i - ci' j) 0) as [E'|E']; try reflexivity; exfalso.
+  - apply E'. assert (ci i = ci j) by lia. apply Hs in H0. lia.
+  - apply E. assert (ci' i = ci' j) by lia. apply Hs in H0. lia.
+Qed.
+
+Theorem modularity_und_partition_only n A gamma ci ci' : same_part n ci ci' ->
+  modularity_und_q n A gamma ci == modularity_und_q n A gamma ci'.
+Proof.
+  intros H. unfold modularity_und_q. cbv zeta. apply sum2Q_ext. intros i j Hi Hj.
+  rewrite (zsame_same n ci ci' H i j Hi Hj). reflexivity.
+Qed.
+
+Theorem modularity_dir_partition_only n A gamma ci ci' : same_part n ci ci' ->
+  modularity_dir_q n A gamma ci == modularity_dir_q n A gamma ci'.
+Proof.
+  intros H. unfold modularity_dir_q. cbv zeta. apply sum2Q_ext. intros i j Hi Hj.
+  rewrite (zsame_same n ci ci' H i j Hi Hj). reflexivity.
+Qed.
+
+(* injective renamings give the same partition *)
+Lemma injective_same_part n (ci : vec Z) (g : Z -> Z) : (forall x y, g x = g y -> x = y) ->
+  same_part n ci (fun i => g (ci i)).
+Proof. intros Hg i j _ _. split; [intros ->; reflexivity|apply Hg]. Qed.
+
+(* ---------- modularity_und_sign ---------- *)
+Lemma node_degree_collapse n K (c : vec nat) (f : nat -> Q) : (forall j, (j < n)%nat -> (1 <= c j <= K)%nat) ->
+  sumM K (fun m => sumQ (fun j => ind (Nat.eqb (c j) m) * f j) n) == sumQ f n.
+Proof.
+  intros Hc. rewrite sumM_fubini. apply sumQ_ext. intros j Hj.
+  apply (block_collapse K (c j) (fun _ => f j)). apply Hc; exact Hj.
+Qed.
+
+Theorem modularity_und_sign_partition_only n W ci ci' qt : same_part n ci ci' ->
+  modularity_und_sign_q n W ci qt == modularity_und_sign_q n W ci' qt.
+Proof.
+  intros H. unfold modularity_und_sign_q. cbv zeta.
+  pose proof (same_part_relabel n ci ci' H) as Hs.
+  set (c := relabel n ci). set (c' := relabel n ci').
+  assert (HK0 : forall (M : mat Q) i, sumM (vmax n c) (fun m => sumQ (fun j => ind (Nat.eqb (c j) m) * M i j) n) ==
+                              sumM (vmax n c') (fun m => sumQ (fun j => ind (Nat.eqb (c' j) m) * M i j) n)).
+  { intros M i. rewrite (node_degree_collapse n (vmax n c) c (fun j => M i j) (relabel_canon n ci)).
+    rewrite (node_degree_collapse n (vmax n c') c' (fun j => M i j) (relabel_canon n ci')). reflexivity. }
+  destruct (Qeq_bool (sum2Q (pos_part W) n) 0); destruct (Qeq_bool (sum2Q (neg_part W) n) 0);
+  (assert (E0 : forall s, sum2Q (fun i j => (pos_part W i j -
+        sumM (vmax n c) (fun m => sumQ (fun j0 => ind (Nat.eqb (c j0) m) * pos_part W i j0) n) *
+        sumM (vmax n c) (fun m => sumQ (fun j0 => ind (Nat.eqb (c j0) m) * pos_part W j j0) n) / s) * ind (Nat.eqb (c i) (c j))) n ==
+      sum2Q (fun i j => (pos_part W i j -
+        sumM (vmax n c') (fun m => sumQ (fun j0 => ind (Nat.eqb (c' j0) m) * pos_part W i j0) n) *
+        sumM (vmax n c') (fun m => sumQ (fun j0 => ind (Nat.eqb (c' j0) m) * pos_part W j j0) n) / s) * ind (Nat.eqb (c' i) (c' j))) n)
+     by (intros s; apply sum2Q_ext; intros i j Hi Hj;
+         rewrite (HK0 (pos_part W) i), (HK0 (pos_part W) j), (same_part_eqb n c c' Hs i j Hi Hj); reflexivity));
+  (assert (E1 : forall s, sum2Q (fun i j => (neg_part W i j -
+        sumM (vmax n c) (fun m => sumQ (fun j0 => ind (Nat.eqb (c j0) m) * neg_part W i j0) n) *
+        sumM (vmax n c) (fun m => sumQ (fun j0 => ind (Nat.eqb (c j0) m) * neg_part W j j0) n) / s) * ind (Nat.eqb (c i) (c j))) n ==
+      sum2Q (fun i j => (neg_part W i j -
+        sumM (vmax n c') (fun m => sumQ (fun j0 => ind (Nat.eqb (c' j0) m) * neg_part W i j0) n) *
+        sumM (vmax n c') (fun m => sumQ (fun j0 => ind (Nat.eqb (c' j0) m) * neg_part W j j0) n) / s) * ind (Nat.eqb (c' i) (c' j))) n)
+     by (intros s; apply sum2Q_ext; intros i j Hi Hj;
+         rewrite (HK0 (neg_part W) i), (HK0 (neg_part W) j), (same_part_eqb n c c' Hs i j Hi Hj); reflexivity));
+  rewrite E0, E1; reflexivity.
+Qed.
+
+(* ---------- agreement ---------- *)
+Theorem agreement_counts n np_ cis i j : (i < n)%nat -> (j < n)%nat -> i <> j ->
+  agreement n np_ cis i j == sumQ (fun p => ind (Z.eqb (cis p i) (cis p j))) np_.
+Proof.
+  intros Hi Hj Hne. unfold agreement. destruct (Nat.eqb_spec i j) as [E|_]; [contradiction|].
+  apply sumQ_ext. intros p _. cbv zeta.
+  rewrite (block_collapse (vmax n (relabel n (cis p))) (relabel n (cis p) i) (fun m => ind (Nat.eqb (relabel n (cis p) j) m))
+             (relabel_canon n (cis p) i Hi)).
+  pose proof (relabel_same n (cis p) j i Hj Hi) as Hs.
+  destruct (Nat.eqb_spec (relabel n (cis p) j) (relabel n (cis p) i)) as [E|E], (Z.eqb_spec (cis p i) (cis p j)) as [E'|E'];
+    try reflexivity; exfalso.
+  - apply E'. symmetry. apply Hs. exact E.
+  - apply E. apply Hs. symmetry. exact E'.
+Qed.
+
+Theorem agreement_partition_only n np_ cis cis' i j :
+  (forall p, (p < np_)%nat -> same_part n (cis p) (cis' p)) -> (i < n)%nat -> (j < n)%nat ->
+  agreement n np_ cis i j == agreement n np_ cis' i j.
+Proof.
+  intros H Hi Hj. destruct (Nat.eq_dec i j) as [->|Hne].
+  - unfold agreement. rewrite Nat.eqb_refl. reflexivity.
+  - rewrite (agreement_counts n np_ cis i j Hi Hj Hne), (agreement_counts n np_ cis' i j Hi Hj Hne).
+    apply sumQ_ext. intros p Hp. pose proof (H p Hp i j Hi Hj) as Hs.
+    destruct (Z.eqb_spec (cis p i) (cis p j)) as [E|E], (Z.eqb_spec (cis' p i) (cis' p j)) as [E'|E']; try reflexivity; exfalso; tauto.
+Qed.
+
+(* ---------- partition_distance ---------- *)
+Lemma sumQ_shift f K : sumQ f (S K) == f 0%nat + sumQ (fun u => f (S u)) K.
+Proof. induction K; cbn [sumQ]; [ring|]. cbn [sumQ] in IHK. rewrite IHK. ring. Qed.
+
+Lemma fold_map_seq (g : nat -> Q) K : forall s, fold_right Qplus 0 (map g (seq s K)) == sumQ (fun u => g (s + u)%nat) K.
+Proof.
+  induction K as [|K IH]; intros s; [reflexivity|]. cbn [seq map fold_right]. rewrite IH, sumQ_shift.
+  rewrite Nat.add_0_r. apply Qplus_comp; [reflexivity|]. apply sumQ_ext. intros u _. rewrite Nat.add_succ_r. reflexivity.
+Qed.
+
+Definition qof (n : nat) : Q := inject_Z (Z.of_nat n).
+Definition bsize (n : nat) (c : vec nat) (i : nat) : Q := mdz_cnt n c (c i).     (* size of the block of node i *)
+
+Section Entropy.
+Variable log : Q -> Q.
+Hypothesis log_proper : forall a b, a == b -> log a == log b.
+
+(* node form of the entropy: H = - sum_i (1/n) log(|block of i| / n) *)
+Definition entropy_nf (n : nat) (c : vec nat) : Q :=
+  - sumQ (fun i => (1 / qof n) * log (bsize n c i / qof n)) n.
+
+Lemma entropy_node_form n c : canon n c -> entropy log n (hist n c) == entropy_nf n c.
+Proof.
+  intros Hc. unfold entropy, hist, entropy_nf. rewrite map_map. rewrite fold_map_seq. cbn [Nat.add].
+  apply Qopp_comp. fold (qof n).
+  change (sumQ (fun u => mdz_cnt n c (S u) / qof n * log (mdz_cnt n c (S u) / qof n)) (vmax n c))
+    with (sumM (vmax n c) (fun m => mdz_cnt n c m / qof n * log (mdz_cnt n c m / qof n))).
+  rewrite (sumM_ext _ _ (fun m => sumQ (fun i => ind (Nat.eqb (c i) m) * (1 / qof n * log (mdz_cnt n c m / qof n))) n)).
+  - rewrite sumM_fubini. apply sumQ_ext. intros i Hi.
+    apply (block_collapse (vmax n c) (c i) (fun m => 1 / qof n * log (mdz_cnt n c m / qof n)) (Hc i Hi)).
+  - intros m _. rewrite sumQ_scal_r. unfold mdz_cnt at 1. unfold Qdiv. ring.
+Qed.
+
+Lemma entropy_same n c c' : canon n c -> canon n c' -> same_part n c c' ->
+  entropy log n (hist n c) == entropy log n (hist n c').
+Proof.
+  intros Hc Hc' H. rewrite (entropy_node_form n c Hc), (entropy_node_form n c' Hc'). unfold entropy_nf.
+  apply Qopp_comp. apply sumQ_ext. intros i Hi. unfold bsize.
+  rewrite (log_proper _ _ (Qmult_comp _ _ (mdz_cnt_same n c c' i H Hi) _ _ (Qeq_refl (/ qof n)))). reflexivity.
+Qed.
+
+(* the joint labelling separates exactly the pairs (x-label, y-label) *)
+Lemma joint_key_same n (x y : vec nat) i j : (1 <= x i)%nat -> (1 <= x j)%nat ->
+  (1 <= y i <= n)%nat -> (1 <= y j <= n)%nat ->
+  (joint_key n x y i = joint_key n x y j <-> x i = x j /\ y i = y j).
+Proof.
+  intros Hxi Hxj Hyi Hyj. unfold joint_key. split.
+  - intros H.
+    assert (Ha : (Z.of_nat (pred (x i)) = Z.of_nat (pred (x j)))%Z).
+    { assert (E : forall a b, (0 <= b < Z.of_nat (S n))%Z -> ((a * Z.of_nat (S n) + b) / Z.of_nat (S n) = a)%Z).
+      { intros a b Hb. rewrite Z.div_add_l by lia. rewrite Z.div_small by exact Hb. lia. }
+      rewrite <- (E (Z.of_nat (pred (x i))) (Z.of_nat (pred (y i)))) by lia.
+      rewrite <- (E (Z.of_nat (pred (x j))) (Z.of_nat (pred (y j)))) by lia. rewrite H. reflexivity. }
+    rewrite Ha in H. split; lia.
+  - intros [-> ->]. reflexivity.
+Qed.
+
+Lemma joint_same n cx cy :
+  forall i j, (i < n)%nat -> (j < n)%nat ->
+  (relabel n (joint_key n (relabel n cx) (relabel n cy)) i = relabel n (joint_key n (relabel n cx) (relabel n cy)) j
+   <-> cx i = cx j /\ cy i = cy j).
+Proof.
+  intros i j Hi Hj. rewrite relabel_same by assumption.
+  rewrite joint_key_same.
+  - rewrite (relabel_same n cx i j Hi Hj), (relabel_same n cy i j Hi Hj). reflexivity.
+  - apply (relabel_canon n cx i Hi).
+  - apply (relabel_canon n cx j Hj).
+  - split; [apply (relabel_canon n cy i Hi)|apply relabel_le; exact Hi].
+  - split; [apply (relabel_canon n cy j Hj)|apply relabel_le; exact Hj].
+Qed.
+
+Definition Hx_of n cx := entropy log n (hist n (relabel n cx)).
+Definition Hxy_of n cx cy := entropy log n (hist n (relabel n (joint_key n (relabel n cx) (relabel n cy)))).
+
+Lemma partition_distance_unfold n cx cy :
+  partition_distance log n cx cy =
+  ((2 * Hxy_of n cx cy - Hx_of n cx - Hx_of n cy) / log (qof n),
+   2 * (Hx_of n cx + Hx_of n cy - Hxy_of n cx cy) / (Hx_of n cx + Hx_of n cy)).
+Proof. reflexivity. Qed.
+
+Lemma Hxy_sym n cx cy : Hxy_of n cx cy == Hxy_of n cy cx.
+Proof.
+  unfold Hxy_of. apply entropy_same; try apply relabel_canon.
+  intros i j Hi Hj. rewrite (joint_same n cx cy i j Hi Hj), (joint_same n cy cx i j Hi Hj). tauto.
+Qed.
+
+Theorem partition_distance_symmetric n cx cy :
+  fst (partition_distance log n cx cy) == fst (partition_distance log n cy cx) /\
+  snd (partition_distance log n cx cy) == snd (partition_distance log n cy cx).
+Proof.
+  rewrite !partition_distance_unfold. cbn [fst snd]. rewrite (Hxy_sym n cx cy).
+  split; [apply Qmult_comp; [ring|reflexivity]|].
+  apply Qmult_comp; [ring|]. apply Qinv_comp. ring.
+Qed.
+
+(* depends on the two partitions only *)
+Theorem partition_distance_partition_only n cx cy cx' cy' : same_part n cx cx' -> same_part n cy cy' ->
+  fst (partition_distance log n cx cy) == fst (partition_distance log n cx' cy') /\
+  snd (partition_distance log n cx cy) == snd (partition_distance log n cx' cy').
+Proof.
+  intros Hx Hy. rewrite !partition_distance_unfold. cbn [fst snd].
+  assert (E1 : Hx_of n cx == Hx_of n cx').
+  { apply entropy_same; try apply relabel_canon. apply same_part_relabel; exact Hx. }
+  assert (E2 : Hx_of n cy == Hx_of n cy').
+  { apply entropy_same; try apply relabel_canon. apply same_part_relabel; exact Hy. }
+  assert (E3 : Hxy_of n cx cy == Hxy_of n cx' cy').
+  { unfold Hxy_of. apply entropy_same; try apply relabel_canon.
+    intros i j Hi Hj. rewrite (joint_same n cx cy i j Hi Hj), (joint_same n cx' cy' i j Hi Hj).
+    rewrite (Hx i j Hi Hj), (Hy i j Hi Hj). reflexivity. }
+  rewrite E1, E2, E3. split; reflexivity.
+Qed.
+
+(* same partition up to renaming => VIn = 0 and (unless the entropy vanishes: one block) MIn = 1 *)
+Theorem partition_distance_same n cx cy : same_part n cx cy ->
+  fst (partition_distance log n cx cy) == 0 /\
+  (~ Hx_of n cx == 0 -> snd (partition_distance log n cx cy) == 1).
+Proof.
+  intros H. rewrite partition_distance_unfold. cbn [fst snd].
+  assert (E2 : Hx_of n cy == Hx_of n cx).
+  { apply entropy_same; try apply relabel_canon. apply same_part_relabel. intros i j Hi Hj. symmetry. apply H; assumption. }
+  assert (E3 : Hxy_of n cx cy == Hx_of n cx).
+  { unfold Hxy_of, Hx_of. apply entropy_same; try apply relabel_canon.
+    intros i j Hi Hj. rewrite (joint_same n cx cy i j Hi Hj), (relabel_same n cx i j Hi Hj).
+    pose proof (H i j Hi Hj). tauto. }
+  rewrite E2, E3. split.
+  - unfold Qdiv. ring.
+  - intros Hne. field. intros Hc. apply Hne. lra.
+Qed.
+End Entropy.
+
+(* ---------- ci2ls / ls2ci ---------- *)
+Lemma ls2ci_inner v blk : forall (ci0 : vec nat) y,
+  fold_left (fun ci y0 => vupd ci y0 v) blk ci0 y = if nmem y blk then v else ci0 y.
+Proof.
+  induction blk as [|a t IH]; intros ci0 y; cbn [fold_left]; [reflexivity|].
+  rewrite IH. unfold nmem. cbn [existsb]. fold (nmem y t). unfold vupd.
+  destruct (nmem y t); [rewrite orb_true_r; reflexivity|]. rewrite orb_false_r. reflexivity.
+Qed.
+
+Lemma ls2ci_outer y u0 (l : list (nat * list nat)) : forall ci0 : vec nat,
+  (forall p, In p l -> nmem y (snd p) = true -> fst p = u0) ->
+  fold_left (fun ci ib => fold_left (fun ci y0 => vupd ci y0 (S (fst ib))) (snd ib) ci) l ci0 y =
+  if existsb (fun p => nmem y (snd p)) l then S u0 else ci0 y.
+Proof.
+  induction l as [|p t IH]; intros ci0 H; cbn [fold_left existsb]; [reflexivity|].
+  rewrite IH by (intros q Hq; apply H; right; exact Hq).
+  rewrite ls2ci_inner. destruct (nmem y (snd p)) eqn:E; cbn [orb].
+  - rewrite (H p (or_introl eq_refl) E). destruct (existsb _ t); reflexivity.
+  - reflexivity.
+Qed.
+
+Lemma combine_map_r {A B} (F : A -> B) l : combine l (map F l) = map (fun u => (u, F u)) l.
+Proof. induction l as [|a l IH]; cbn; [reflexivity|]. rewrite IH. reflexivity. Qed.
+
+(* ls2ci(ci2ls(ci)) is the canonical relabelling of ci, hence the same partition *)
+Theorem ci2ls_ls2ci_inverse n ci i : (i < n)%nat -> ls2ci (ci2ls n ci) i = relabel n ci i.
+Proof.
+  intros Hi. unfold ls2ci, ci2ls. cbv zeta. set (c := relabel n ci). set (K := vmax n c).
+  rewrite map_length, seq_length. rewrite combine_map_r.
+  destruct (relabel_canon n ci i Hi) as [H1 H2]. fold c in H1, H2. fold K in H2.
+  rewrite (ls2ci_outer i (pred (c i))).
+  - assert (Hex : existsb (fun p : nat * list nat => nmem i (snd p))
+                    (map (fun u => (u, filter (fun i0 => Nat.eqb (c i0) (S u)) (seq 0 n))) (seq 0 K)) = true).
+    { apply existsb_exists. exists (pred (c i), filter (fun i0 => Nat.eqb (c i0) (S (pred (c i)))) (seq 0 n)). split.
+      - apply in_map_iff. exists (pred (c i)). split; [reflexivity|]. apply in_seq. lia.
+      - cbn [snd]. apply nmem_In. apply filter_In. split; [apply in_seq; lia|]. apply Nat.eqb_eq. lia. }
+    rewrite Hex. lia.
+  - intros p Hp Hin. apply in_map_iff in Hp. destruct Hp as [u [<- Hu]]. cbn [fst snd] in *.
+    apply nmem_In in Hin. apply filter_In in Hin. destruct Hin as [_ Heq]. apply Nat.eqb_eq in Heq. lia.
+Qed.
+
+(* the blocks listed by ci2ls: ascending node lists, block u holds exactly the nodes whose label has rank u+1 *)
+Theorem ci2ls_blocks n ci u i : (u < vmax n (relabel n ci))%nat ->
+  (In i (nth u (ci2ls n ci) []) <-> (i < n)%nat /\ relabel n ci i = S u).
+Proof.
+  intros Hu. unfold ci2ls. cbv zeta.
+  rewrite (nth_map_seq (fun u => filter (fun i0 => Nat.eqb (relabel n ci i0) (S u)) (seq 0 n)) [] _ u Hu).
+  rewrite filter_In, in_seq, Nat.eqb_eq. intuition lia.
+Qed.
+
+(* ---------- partition_distance: VIn >= 0 and the converse, for an abstract strictly increasing log ---------- *)
+Lemma sumQ_zero_inv' f n : (forall i, (i < n)%nat -> 0 <= f i) -> sumQ f n == 0 -> forall i, (i < n)%nat -> f i == 0.
+Proof.
+  induction n; intros Hnn Hs i Hi; [lia|]. cbn [sumQ] in Hs.
+  assert (H1 : 0 <= sumQ f n) by (apply sumQ_nonneg; intros; apply Hnn; lia).
+  assert (H2 : 0 <= f n) by (apply Hnn; lia).
+  destruct (Nat.eq_dec i n) as [->|Hne]; [lra|]. apply IHn; [intros; apply Hnn; lia|lra|lia].
+Qed.
+
+Lemma ind_nonneg b : 0 <= ind b. Proof. destruct b; cbn; lra. Qed.
+
+Lemma bsize_ge1 n c i : (i < n)%nat -> 1 <= bsize n c i.
+Proof.
+  intros Hi. unfold bsize, mdz_cnt. rewrite (sumQ_split _ n i Hi). rewrite Nat.eqb_refl. cbn [ind].
+  assert (0 <= sumQ (fun i0 => if Nat.eqb i0 i then 0 else ind (Nat.eqb (c i0) (c i))) n).
+  { apply sumQ_nonneg. intros l _. destruct (Nat.eqb l i); [lra|apply ind_nonneg]. }
+  lra.
+Qed.
+
+Lemma bsize_le n c c' i : (forall l, (l < n)%nat -> c l = c i -> c' l = c' i) -> bsize n c i <= bsize n c' i.
+Proof.
+  intros H. unfold bsize, mdz_cnt. apply sumQ_le. intros l Hl.
+  destruct (Nat.eqb_spec (c l) (c i)) as [E|E].
+  - rewrite (H l Hl E), Nat.eqb_refl. lra.
+  - cbn [ind]. apply ind_nonneg.
+Qed.
+
+Lemma qof_pos n : (0 < n)%nat -> 0 < qof n.
+Proof. intros H. unfold qof. change 0 with (inject_Z 0). rewrite <- Zlt_Qlt. lia. Qed.
+
+Section EntropyOrder.
+Variable log : Q -> Q.
+Hypothesis log_proper : forall a b, a == b -> log a == log b.
+Hypothesis log_incr : forall a b, 0 < a -> a < b -> log a < log b.
+Hypothesis log_1 : log 1 == 0.
+
+Lemma log_mono a b : 0 < a -> a <= b -> log a <= log b.
+Proof.
+  intros Ha Hab. destruct (Qlt_le_dec a b) as [H|H].
+  - apply Qlt_le_weak. apply log_incr; assumption.
+  - assert (E : a == b) by lra. rewrite (log_proper a b E). lra.
+Qed.
+
+Lemma log_inj_le a b : 0 < a -> a <= b -> log a == log b -> a == b.
+Proof.
+  intros Ha Hab E. destruct (Qlt_le_dec a b) as [H|H]; [|lra].
+  pose proof (log_incr a b Ha H). lra.
+Qed.
+
+(* refining a partition cannot lower the entropy; equality forces equal block sizes *)
+Lemma entropy_nf_refine n c c' : (0 < n)%nat ->
+  (forall i l, (i < n)%nat -> (l < n)%nat -> c l = c i -> c' l = c' i) ->
+  entropy_nf log n c' <= entropy_nf log n c /\
+  (entropy_nf log n c' == entropy_nf log n c -> forall i, (i < n)%nat -> bsize n c i == bsize n c' i).
+Proof.
+  intros Hn Href. pose proof (qof_pos n Hn) as Hq.
+  assert (Hterm : forall i, (i < n)%nat ->
+            0 <= 1 / qof n * log (bsize n c' i / qof n) - 1 / qof n * log (bsize n c i / qof n)).
+  { intros i Hi.
+    assert (Hle : bsize n c i / qof n <= bsize n c' i / qof n).
+    { unfold Qdiv. apply Qmult_le_compat_r; [apply bsize_le; intros l Hl; apply Href; assumption|].
+      apply Qlt_le_weak. apply Qinv_lt_0_compat. exact Hq. }
+    assert (Hpos : 0 < bsize n c i / qof n).
+    { apply Qlt_shift_div_l; [exact Hq|]. pose proof (bsize_ge1 n c i Hi). lra. }
+    pose proof (log_mono _ _ Hpos Hle) as Hl.
+    assert (H1 : 0 < 1 / qof n) by (apply Qlt_shift_div_l; [exact Hq|lra]).
+    nra. }
+  assert (Hdiff : entropy_nf log n c - entropy_nf log n c' ==
+                  sumQ (fun i => 1 / qof n * log (bsize n c' i / qof n) - 1 / qof n * log (bsize n c i / qof n)) n).
+  { unfold entropy_nf. rewrite sumQ_sub. ring. }
+  pose proof (sumQ_nonneg _ n Hterm) as Hnn. split; [lra|].
+  intros Heq i Hi.
+  assert (Hz : sumQ (fun i => 1 / qof n * log (bsize n c' i / qof n) - 1 / qof n * log (bsize n c i / qof n)) n == 0) by lra.
+  pose proof (sumQ_zero_inv' _ n Hterm Hz i Hi) as Hi0. cbn beta in Hi0.
+  assert (H1 : 0 < 1 / qof n) by (apply Qlt_shift_div_l; [exact Hq|lra]).
+  assert (Hlog : log (bsize n c i / qof n) == log (bsize n c' i / qof n)) by nra.
+  assert (Hle : bsize n c i / qof n <= bsize n c' i / qof n).
+  { unfold Qdiv. apply Qmult_le_compat_r; [apply bsize_le; intros l Hl; apply Href; assumption|].
+    apply Qlt_le_weak. apply Qinv_lt_0_compat. exact Hq. }
+  assert (Hpos : 0 < bsize n c i / qof n).
+  { apply Qlt_shift_div_l; [exact Hq|]. pose proof (bsize_ge1 n c i Hi). lra. }
+  pose proof (log_inj_le _ _ Hpos Hle Hlog) as E.
+  assert (bsize n c i == bsize n c i / qof n * qof n) as -> by (field; lra).
+  rewrite E. field. lra.
+Qed.
+
+(* equal block sizes of a refinement: the blocks coincide *)
+Lemma bsize_eq_blocks n (c c' : vec nat) i : (i < n)%nat ->
+  (forall l, (l < n)%nat -> c l = c i -> c' l = c' i) -> bsize n c i == bsize n c' i ->
+  forall l, (l < n)%nat -> c' l = c' i -> c l = c i.
+Proof.
+  intros Hi Href Heq l Hl Hc'.
+  assert (Hterm : forall l, (l < n)%nat -> 0 <= ind (Nat.eqb (c' l) (c' i)) - ind (Nat.eqb (c l) (c i))).
+  { intros l0 Hl0. destruct (Nat.eqb_spec (c l0) (c i)) as [E|E].
+    - rewrite (Href l0 Hl0 E), Nat.eqb_refl. cbn [ind]. lra.
+    - cbn [ind]. pose proof (ind_nonneg (Nat.eqb (c' l0) (c' i))). lra. }
+  assert (Hz : sumQ (fun l => ind (Nat.eqb (c' l) (c' i)) - ind (Nat.eqb (c l) (c i))) n == 0).
+  { rewrite sumQ_sub. unfold bsize, mdz_cnt in Heq. lra. }
+  pose proof (sumQ_zero_inv' _ n Hterm Hz l Hl) as H0. cbn beta in H0.
+  rewrite Hc', Nat.eqb_refl in H0. cbn [ind] in H0.
+  destruct (Nat.eqb_spec (c l) (c i)) as [E|E]; [exact E|]. cbn [ind] in H0. lra.
+Qed.
+
+Theorem Hxy_ge n cx cy : (0 < n)%nat ->
+  Hx_of log n cx <= Hxy_of log n cx cy /\ Hx_of log n cy <= Hxy_of log n cx cy.
+Proof.
+  intros Hn. unfold Hx_of, Hxy_of. rewrite !entropy_node_form by apply relabel_canon.
+  split; apply entropy_nf_refine; try exact Hn; intros i l Hi Hl H.
+  - apply (joint_same n cx cy l i Hl Hi) in H. apply relabel_same; tauto.
+  - apply (joint_same n cx cy l i Hl Hi) in H. apply relabel_same; tauto.
+Qed.
+
+Lemma log_n_pos n : (1 < n)%nat -> 0 < log (qof n).
+Proof.
+  intros Hn. rewrite <- log_1. apply log_incr; [lra|]. unfold qof. change 1 with (inject_Z 1). rewrite <- Zlt_Qlt. lia.
+Qed.
+
+Theorem VIn_nonneg n cx cy : (1 < n)%nat -> 0 <= fst (partition_distance log n cx cy).
+Proof.
+  intros Hn. rewrite partition_distance_unfold. cbn [fst].
+  destruct (Hxy_ge n cx cy) as [H1 H2]; [lia|].
+  apply Qle_shift_div_l; [apply log_n_pos; exact Hn|]. lra.
+Qed.
+
+(* VIn = 0 only for the same partition up to renaming *)
+Theorem VIn_zero_same n cx cy : (1 < n)%nat -> fst (partition_distance log n cx cy) == 0 -> same_part n cx cy.
+Proof.
+  intros Hn H0. rewrite partition_distance_unfold in H0. cbn [fst] in H0.
+  pose proof (log_n_pos n Hn) as HL.
+  assert (Hnum : 2 * Hxy_of log n cx cy - Hx_of log n cx - Hx_of log n cy == 0).
+  { assert (E : 2 * Hxy_of log n cx cy - Hx_of log n cx - Hx_of log n cy ==
+                (2 * Hxy_of log n cx cy - Hx_of log n cx - Hx_of log n cy) / log (qof n) * log (qof n)) by (field; lra).
+    rewrite E, H0. ring. }
+  destruct (Hxy_ge n cx cy) as [H1 H2]; [lia|].
+  assert (E1 : Hxy_of log n cx cy == Hx_of log n cx) by lra.
+  assert (E2 : Hxy_of log n cx cy == Hx_of log n cy) by lra.
+  unfold Hx_of, Hxy_of in E1, E2. rewrite !entropy_node_form in E1, E2 by apply relabel_canon.
+  set (x := relabel n cx) in *. set (y := relabel n cy) in *. set (xy := relabel n (joint_key n x y)) in *.
+  assert (Rx : forall i l, (i < n)%nat -> (l < n)%nat -> xy l = xy i -> x l = x i).
+  { intros i l Hi Hl H. apply (joint_same n cx cy l i Hl Hi) in H. apply relabel_same; tauto. }
+  assert (Ry : forall i l, (i < n)%nat -> (l < n)%nat -> xy l = xy i -> y l = y i).
+  { intros i l Hi Hl H. apply (joint_same n cx cy l i Hl Hi) in H. apply relabel_same; tauto. }
+  destruct (entropy_nf_refine n xy x) as [_ Sx]; [lia|exact Rx|].
+  destruct (entropy_nf_refine n xy y) as [_ Sy]; [lia|exact Ry|].
+  assert (E1' : entropy_nf log n x == entropy_nf log n xy) by (symmetry; exact E1).
+  assert (E2' : entropy_nf log n y == entropy_nf log n xy) by (symmetry; exact E2).
+  specialize (Sx E1'). specialize (Sy E2').
+  intros i j Hi Hj. split; intros H.
+  - assert (Hx : x j = x i) by (apply relabel_same; [exact Hj|exact Hi|symmetry; exact H]).
+    pose proof (bsize_eq_blocks n xy x i Hi (fun l Hl => Rx i l Hi Hl) (Sx i Hi) j Hj Hx) as Hxy.
+    apply (joint_same n cx cy j i Hj Hi) in Hxy. symmetry. tauto.
+  - assert (Hy : y j = y i) by (apply relabel_same; [exact Hj|exact Hi|symmetry; exact H]).
+    pose proof (bsize_eq_blocks n xy y i Hi (fun l Hl => Ry i l Hi Hl) (Sy i Hi) j Hj Hy) as Hxy.
+    apply (joint_same n cx cy j i Hj Hi) in Hxy. symmetry. tauto.
+Qed.
+
+(* MIn = 1 forces VIn = 0 (when H(X)+H(Y) is not 0), hence the same partition *)
+Theorem MIn_one_same n cx cy : (1 < n)%nat -> ~ Hx_of log n cx + Hx_of log n cy == 0 ->
+  snd (partition_distance log n cx cy) == 1 -> same_part n cx cy.
+Proof.
+  intros Hn Hne H1. apply VIn_zero_same; [exact Hn|].
+  rewrite partition_distance_unfold in *. cbn [fst snd] in *.
+  assert (E : 2 * (Hx_of log n cx + Hx_of log n cy - Hxy_of log n cx cy) ==
+              2 * (Hx_of log n cx + Hx_of log n cy - Hxy_of log n cx cy) / (Hx_of log n cx + Hx_of log n cy)
+              * (Hx_of log n cx + Hx_of log n cy)) by (field; exact Hne).
+  rewrite H1 in E.
+  assert (Hnum : 2 * Hxy_of log n cx cy - Hx_of log n cx - Hx_of log n cy == 0) by lra.
+  rewrite Hnum. unfold Qdiv. ring.
+Qed.
+End EntropyOrder.
